@@ -533,3 +533,24 @@ Theorem put_nonwritable h a o n v v0 e c :
   nth_error h a = Some o -> lookup (o_props o) n = Some (PData v0 false e c) ->
   put h a n v = (h, []).
 Proof. intros Ho L. unfold put, can_put. rewrite Ho, L. reflexivity. Qed.
+
+(* for-in is complete: every property visible through the prototype chain ([[GetProperty]] finds
+   it) that is enumerable is visited - whatever object of the chain holds it *)
+Lemma forin_complete_gen fuel h : forall a seen n p,
+  get_property fuel h a n = Some p -> p_enum p = true -> ~ In n seen ->
+  In n (forin fuel h a seen).
+Proof.
+  induction fuel as [|k IH]; intros a seen n p G E S; cbn in *; [discriminate|].
+  destruct (nth_error h a) as [o|]; [|discriminate].
+  destruct (lookup (o_props o) n) as [q|] eqn:L.
+  - inversion G; subst q. apply in_app_iff. left. apply in_map_iff. exists (n, p). split; auto.
+    apply filter_In. split; [apply lookup_in; auto|]. cbn. rewrite E. cbn.
+    destruct (memz n seen) eqn:M; auto. apply memz_in in M. contradiction.
+  - destruct (o_proto o) as [pa|]; [|discriminate]. apply in_app_iff. right.
+    eapply IH; eauto. rewrite in_app_iff. intros [H|H]; [auto|].
+    apply lookup_none_iff in L. auto.
+Qed.
+
+Theorem forin_complete h a n p :
+  get_property (length h) h a n = Some p -> p_enum p = true -> In n (forin (length h) h a []).
+Proof. intros G E. eapply forin_complete_gen; eauto. Qed.
